@@ -62,8 +62,9 @@ def run(R):
         counter = CmpGuard(local_counts, new_counts, "Lt", "local.count() < new.count() (strictly higher)", close=False)
         no_local = CallGuard([NET + "get_local_record"], ("Ok", "None"), "no local copy")
         R.gate("C07.pad.counter", pad, CallSink(PUT), [[counter, no_local]], descr="scratchpad stored only if no local copy or strictly higher counter")
-        R.gate("C07.pad.sig", pad, CallSink(PUT), [[CallGuard([PAD + "::is_valid"], ("true",), "scratchpad.is_valid()")]],
-               descr="scratchpad stored only with a valid owner signature")
+        R.gate_here_or_in_callers("C07.pad.sig", PV + "validate_and_store_scratchpad_record::{closure#0}", PV + "validate_and_store_scratchpad_record",
+                                  CallSink(PUT), CallGuard([PAD + "::is_valid"], ("true",), "scratchpad.is_valid()"),
+                                  "scratchpad stored only with a valid owner signature")
         # the local copy compared is the one stored under the same key
         ta = Taint(pad, through="all")
         keys = ta.closure(call_results([TRK])(pad))
